@@ -16,9 +16,16 @@ Interpretation decisions
   * both operand orders are observed (a == b and b == a): Python may dispatch to either operand.
   * non-maze right operands (None, int, tuple, str, list) must compare unequal without raising.
   * hash collisions between different values are allowed (e.g. 2x3 vs 3x2 with the same bytes).
-  * configuration equality for datasets: the fields name / grid_n / seed / maze_ctor decide; when ONLY
-    n_mazes differs the statement does not say (the code documents n_mazes as "not compared" but the
-    installed dataclass machinery compares it) and the configuration's own == is taken.
+  * configuration equality for datasets: the fields name / grid_n / seed / maze_ctor / applied_filters decide;
+    when ONLY n_mazes differs the statement does not say (the code declares n_mazes "not compared") and the
+    configuration's own == is taken.  Filters (also collect_generation_meta and the minimal serializers) append
+    to cfg.applied_filters, so a filtered dataset legitimately differs from its unfiltered twin.
+  * history (audit class A): objects that have been used (rendered, tokenized, serialized, hashed, put in sets)
+    and datasets that were edited / filtered are observed again; the records are ordinary pair / ds records
+    judged from the CURRENT projections -- the value semantics has no notion of history.
+  * magnitude (audit class B): >= 128 / >= 256 cells, solution positions and coordinate values that differ only
+    beyond an int8 / uint8 boundary, constructor coordinates 127/128/255/256 on grids 128 and 256, datasets and
+    duplicate lists of 127..300 mazes.
   * constructor: only start / end are constrained (not interior solution cells); any accepted object
     must hold exactly in-grid ends; out-of-grid => ValueError precisely.
 """
@@ -89,6 +96,8 @@ def build(d, same=None):
         conv = {
             "ends_int8": lambda x: np.array(x, dtype=np.int8),
             "ends_int32": lambda x: np.array(x, dtype=np.int32),
+            "ends_int16": lambda x: np.array(x, dtype=np.int16),
+            "ends_uint8": lambda x: np.array(x, dtype=np.uint8),
             "ends_list": list,
             "ends_tuple": tuple,
         }.get(rep, np.array)
@@ -99,6 +108,10 @@ def build(d, same=None):
             sol = np.array(sol, dtype=np.int8)
         elif rep == "sol_int32":
             sol = np.array(sol, dtype=np.int32)
+        elif rep == "sol_int16":
+            sol = np.array(sol, dtype=np.int16)
+        elif rep == "sol_uint8":
+            sol = np.array(sol, dtype=np.uint8)
         elif rep == "sol_list":
             sol = [list(c) for c in sol]
         elif rep == "sol_tuples":
@@ -167,17 +180,22 @@ def _foreign(tag):
 
 
 # ------------------------------------------------------------------ observation (real code)
-def obs_pair(a, b, pa, rel, ad, bd):
+def obs_pair(a, b, pa, rel, ad, bd, exp=None, **extra):
+    """eq / ne in both orders FIRST, then hashing and set / dict use, then == and != AGAIN in the other order
+    (history must not matter: a memo filled by the first comparison or by hashing must not change the answer)"""
+    eq, ne, eq_r, ne_r = tv(lambda: a == b), tv(lambda: a != b), tv(lambda: b == a), tv(lambda: b != a)
     ra, ha = mz.outcome(lambda: hash(a))
     rb, hb = mz.outcome(lambda: hash(b))
     rs, ns = mz.outcome(lambda: len({a, b}))
     rd, nd = mz.outcome(lambda: len(dict.fromkeys([a, b])))
+    ne_r2, eq_r2, ne2, eq2 = tv(lambda: b != a), tv(lambda: b == a), tv(lambda: a != b), tv(lambda: a == b)
+    ra2, ha2 = mz.outcome(lambda: hash(a))
     return dict(
-        t="pair", rel=rel, exp=rel in EQUAL_RELS, a=pa, b=proj(b),
-        eq=tv(lambda: a == b), ne=tv(lambda: a != b), eq_r=tv(lambda: b == a), ne_r=tv(lambda: b != a),
-        ha=ra, hb=rb, heq=bool(ra == "ok" and rb == "ok" and ha == hb),
+        t="pair", rel=rel, exp=(rel in EQUAL_RELS) if exp is None else exp, a=pa, b=proj(b),
+        eq=eq, ne=ne, eq_r=eq_r, ne_r=ne_r, eq2=eq2, ne2=ne2, eq_r2=eq_r2, ne_r2=ne_r2,
+        ha=ra, hb=rb, heq=bool(ra == "ok" and rb == "ok" and ha == hb), hstable=bool(ra == "ok" and ra2 == "ok" and ha == ha2),
         set_res=rs, set_n=int(ns) if rs == "ok" else -1, dict_res=rd, dict_n=int(nd) if rd == "ok" else -1,
-        arep=ad.get("rep", "copy"), ameta=ad.get("meta", 0), brep=bd.get("rep", "copy"), bmeta=bd.get("meta", 0),
+        arep=ad.get("rep", "copy"), ameta=ad.get("meta", 0), brep=bd.get("rep", "copy"), bmeta=bd.get("meta", 0), **extra,
     )  # fmt: skip
 
 
@@ -221,7 +239,7 @@ def ctor_call(kind, conn, s, e, form):
     if kind == "TargetedLatticeMaze":
         if form == "from_lattice_maze":
             return mz.TargetedLatticeMaze.from_lattice_maze(mz.LatticeMaze(connection_list=conn), np.array(s), np.array(e))
-        conv = {"array": np.array, "tuple": tuple, "int8": lambda x: np.array(x, dtype=np.int8)}[form]
+        conv = {"array": np.array, "tuple": tuple, "int8": lambda x: np.array(x, dtype=np.int8), "int16": lambda x: np.array(x, dtype=np.int16), "uint8": lambda x: np.array(x, dtype=np.uint8)}[form]
         return mz.TargetedLatticeMaze(connection_list=conn, start_pos=conv(s), end_pos=conv(e))
     if form == "pair":
         return mz.SolvedMaze(connection_list=conn, solution=np.array([s, e]))
@@ -236,7 +254,9 @@ def ctor_call(kind, conn, s, e, form):
 
 def observe_ctor(c):
     R, C = c["R"], c["C"]
-    conn = mz.conn_from_int(R, C, mz.n_graphs(R, C) - 1)
+    conn = np.ones((2, R, C), dtype=bool)  # the full lattice graph (conn is irrelevant to the bounds check)
+    conn[0, -1, :] = False
+    conn[1, :, -1] = False
     out = []
     for form in c["forms"]:
         res, m = mz.outcome(lambda: ctor_call(c["kind"], conn, c["start"], c["end"], form))
@@ -261,7 +281,19 @@ def _cfg_variant(base_kw, v):
 
 
 def _cfgrec(c):
-    return dict(name=str(c.name), grid_n=int(c.grid_n), seed=int(c.seed), ctor=str(c.maze_ctor.__name__))
+    return dict(name=str(c.name), grid_n=int(c.grid_n), seed=int(c.seed), ctor=str(c.maze_ctor.__name__),
+                filters=[str(f.get("name")) + ":" + json.dumps(f.get("kwargs", {}), sort_keys=True, default=str) for f in c.applied_filters])  # fmt: skip
+
+
+def _ds_record(dsa, dsb, cv, **extra):
+    """observation of two EXISTING datasets in their current state (== / != in both orders, twice)"""
+    ca, cb = dsa.cfg, dsb.cfg
+    eq, ne, eq_r, ne_r = tv(lambda: dsa == dsb), tv(lambda: dsa != dsb), tv(lambda: dsb == dsa), tv(lambda: dsb != dsa)
+    eq2, eq_r2 = tv(lambda: dsa == dsb), tv(lambda: dsb == dsa)
+    d = dict(t="ds", cv=cv, ca=_cfgrec(ca), cb=_cfgrec(cb), na=int(ca.n_mazes), nb=int(cb.n_mazes), ceq=tv(lambda: ca == cb),
+             ma=[proj(m) for m in dsa.mazes], mb=[proj(m) for m in dsb.mazes], eq=eq, ne=ne, eq_r=eq_r, ne_r=ne_r, eq2=eq2, eq_r2=eq_r2)  # fmt: skip
+    d.update(extra)
+    return d
 
 
 def _build_all(descs):
@@ -293,13 +325,13 @@ def observe_ds(c):
             continue
         cb = ca if v == "same" else _cfg(**_cfg_variant(base_kw, v))
         rb, dsb = mz.outcome(lambda: MazeDataset(cb, B))
-        ok = ra == "ok" and rb == "ok"
-        out.append(dict(
-            t="ds", cv=v, ca=_cfgrec(ca), cb=_cfgrec(cb), na=int(ca.n_mazes), nb=int(cb.n_mazes), ceq=tv(lambda: ca == cb),
-            ma=[proj(m) for m in A], mb=[proj(m) for m in B],
-            eq=tv(lambda: dsa == dsb) if ok else (ra if ra != "ok" else rb), ne=tv(lambda: dsa != dsb) if ok else (ra if ra != "ok" else rb),
-            ra=[d.get("rep", "copy") for d in ua], rb=[d.get("rep", "copy") for d in ub], ea=[d.get("meta", 0) for d in ua], eb=[d.get("meta", 0) for d in ub],
-        ))  # fmt: skip
+        reps = dict(ra=[d.get("rep", "copy") for d in ua], rb=[d.get("rep", "copy") for d in ub], ea=[d.get("meta", 0) for d in ua], eb=[d.get("meta", 0) for d in ub])
+        if ra == "ok" and rb == "ok":
+            out.append(_ds_record(dsa, dsb, v, **reps))
+        else:  # the dataset constructor raised: recorded as the outcome of the comparison
+            bad = ra if ra != "ok" else rb
+            out.append(dict(t="ds", cv=v, ca=_cfgrec(ca), cb=_cfgrec(cb), na=int(ca.n_mazes), nb=int(cb.n_mazes), ceq=tv(lambda: ca == cb),
+                            ma=[proj(m) for m in A], mb=[proj(m) for m in B], eq=bad, ne=bad, eq_r=bad, ne_r=bad, eq2=bad, eq_r2=bad, **reps))  # fmt: skip
     if c["la"] == c["lb"] and ra == "ok":  # the dataset against a non-dataset: never raises, never equal
         for tag in ("None", "list"):
             o = None if tag == "None" else list(A)
@@ -541,6 +573,300 @@ def rand_ds(args):
     return observe_ds(dict(t="ds", R=n, C=n, pool=pool, la=la, lb=lb, cfgs=["same", "copy", ["name", "grid_n", "seed", "ctor", "n_mazes"][k % 5]]))
 
 
+# ------------------------------------------------------------------ CLASS A: histories (state that must not matter)
+def _tokenizer(n):
+    from maze_dataset.tokenization import MazeTokenizer, TokenizationMode
+
+    return MazeTokenizer(tokenization_mode=TokenizationMode.AOTP_UT_uniform, max_grid_size=int(n))
+
+
+def _use(name, m, aux):
+    """legitimately USE the object (results that are fresh arrays / lists are overwritten afterwards: a later
+    call must not hand the modified data back, and the object's value must not change)"""
+    R, C = m.connection_list.shape[1:]
+    if name == "hash":
+        hash(m)
+    elif name == "set":
+        aux.setdefault("sets", []).append({m})
+    elif name == "dict":
+        aux.setdefault("dicts", []).append({m: 1})
+    elif name == "as_pixels":
+        for kw in (dict(), dict(show_endpoints=False, show_solution=False)):
+            px = m.as_pixels(**kw)
+            px[...] = 7
+    elif name == "as_ascii":
+        m.as_ascii()
+    elif name == "as_adj_list":
+        x = m.as_adj_list()
+        x[...] = 0
+    elif name == "get_nodes":
+        m.get_nodes()
+    elif name == "serialize":
+        type(m).load(m.serialize())
+    elif name == "str":
+        repr(m), str(m)
+    elif name == "find_path":
+        m.find_shortest_path((0, 0), (R - 1, C - 1))
+    elif name == "eq_foreign":
+        m == None, m != (0, 0), m == mz.LatticeMaze(connection_list=np.zeros((2, R + 1, C), dtype=bool))  # noqa: E711,B015
+    elif name == "start_tokens":
+        m._get_start_pos_tokens().clear()
+        m._get_end_pos_tokens().clear()
+    elif name == "solution_tokens":
+        m._get_solution_tokens().clear()
+    elif name == "as_tokens":
+        m.as_tokens(_tokenizer(max(R, C))).clear()
+    elif name == "forking_points":
+        m.get_solution_forking_points()
+        m.get_solution_path_following_points()
+    elif name == "coord_neighbors":
+        m.get_coord_neighbors(np.array([0, 0]))
+        m.get_connected_component() if hasattr(m, "get_connected_component") else None
+
+
+def _uses_of(kind):
+    u = ["hash", "set", "dict", "as_pixels", "as_ascii", "as_adj_list", "get_nodes", "serialize", "str", "find_path", "eq_foreign", "coord_neighbors"]
+    if kind != "LatticeMaze":
+        u += ["start_tokens"]
+    if kind == "SolvedMaze":
+        u += ["solution_tokens", "as_tokens", "forking_points"]
+    return u
+
+
+def rand_history(args):
+    """TWO objects (a narrow grid and a wider grid with the same rows and the same leading bytes) are used step by
+    step, interleaved (A-B-A); after every use each is compared with a fresh equal object built BEFORE any use,
+    a fresh equal object built NOW (after throw-away objects were hashed and freed: id reuse), a saved-and-loaded
+    copy, and a fresh DIFFERENT object.  All records are ordinary pair records: the oracle knows no history."""
+    seed, k, maxn = args
+    rng = np.random.default_rng([seed, 17, k])
+    d1 = _rand_desc(rng, maxn, kind=KINDS[k % 3])
+    R, C = len(d1["conn"][0]), len(d1["conn"][0][0])
+    d2 = _reflow(d1, R, C + 1)
+    out = []
+    objs = []
+    for d in (d1, d2):
+        u = None
+        for rel in rng.permutation(["bit", "solcell", "start", "end", "longer", "bit"]):
+            u = _mutate(rng, d, str(rel))
+            if u is not None:
+                break
+        o, f1, du = safe_build(d)
+        fresh, f2, _ = safe_build(dict(d, rep="copy"))
+        other, f3, uu = safe_build(dict(u, rep="copy"))
+        if f1 or f2 or f3:
+            return [x for x in (f1, f2, f3) if x]
+        objs.append((d, o, fresh, uu, other))
+    uses = [str(x) for x in rng.permutation(_uses_of(d1["kind"]))]
+    hist = [int(seed), int(k), int(maxn)]
+    aux = {}
+    for step, use in enumerate(["fresh"] + uses):
+        for which, (d, o, fresh, uu, other) in enumerate(objs):
+            if use != "fresh":
+                mz.outcome(lambda: _use(use, o, aux))  # a raising use is not C09's business; the observation after it is
+            tag = f"{use}#{step}.{which}"
+            po = proj(o)
+            out.append(obs_pair(o, fresh, po, "used:" + tag, d, d, exp=True, hist=hist))
+            out.append(obs_pair(o, other, po, "used_ne:" + tag, d, uu, exp=False, hist=hist))
+            if step % 3 == 0:
+                for _ in range(3):  # throw-away objects: hashed, compared, freed (their ids get reused)
+                    tmp, _f, _d = safe_build(dict(uu, rep="copy"))
+                    mz.outcome(lambda: (hash(tmp), tmp == o))
+                    del tmp
+                now, f, _ = safe_build(dict(d, rep="copy"))
+                if not f:
+                    out.append(obs_pair(now, o, proj(now), "used_vs_new:" + tag, d, d, exp=True, hist=hist))
+                ld, f, dd = safe_build(dict(d, rep="rt_maze"))
+                if not f:
+                    out.append(obs_pair(o, ld, po, "used_vs_loaded:" + tag, d, dd, exp=True, hist=hist))
+    return out
+
+
+def rand_ds_history(args):
+    """two equal datasets; one is used / edited / filtered step by step and compared with the other after each step
+    (a memoised comparison or data hash would go stale); the oracle judges the CURRENT cfg fields and maze lists"""
+    from maze_dataset import MazeDataset
+
+    seed, k, maxn = args
+    rng = np.random.default_rng([seed, 19, k])
+    n = int(rng.integers(2, maxn + 1))
+    hist = [int(seed), int(k), int(maxn)]
+    descs = [dict(_rand_desc(rng, n, kind="SolvedMaze", shape=(n, n)), meta=1) for _ in range(int(rng.integers(2, 6)))]
+    A, fa, _ = _build_all(descs)
+    B, fb, _ = _build_all(descs)
+    diff = None
+    for rel in ("solcell", "bit", "longer"):
+        diff = _mutate(rng, descs[0], rel)
+        if diff:
+            break
+    X, fx, _ = _build_all([dict(diff, rep="copy", meta=1)])
+    if fa or fb or fx:
+        return fa + fb + fx
+    kw = dict(name="c09h", grid_n=n, n_mazes=len(A), seed=3, ctor="gen_dfs")
+    ra, dsa = mz.outcome(lambda: MazeDataset(_cfg(**kw), A))
+    rb, dsb = mz.outcome(lambda: MazeDataset(_cfg(**kw), B))
+    if ra != "ok" or rb != "ok":
+        return []
+    out = []
+    rec = lambda step, x=None, y=None: out.append(_ds_record(x or dsa, y or dsb, "hist:" + step, hist=hist))  # noqa: E731
+    rec("fresh")
+    mz.outcome(lambda: (len(dsb), dsb[0], dsb.data_hash(), dsb.as_tokens(_tokenizer(n), limit=1)))
+    rec("used")
+    j = int(rng.integers(len(B)))
+    old = dsb.mazes[j]
+    dsb.mazes[j] = X[0]
+    rec("edited")
+    dsb.mazes[j] = old
+    rec("edit_reverted")
+    dsb.mazes.append(X[0])
+    rec("appended")
+    dsb.mazes.pop()
+    rec("append_reverted")
+    dsa.mazes.reverse()
+    rec("a_reversed")
+    dsa.mazes.reverse()
+    r1, res = mz.outcome(lambda: dsb.filter_by.collect_generation_meta())
+    if r1 == "ok":
+        rec("b_collected")
+        rec("b_collected_result", dsa, res)
+        r2, res2 = mz.outcome(lambda: dsa.filter_by.collect_generation_meta())
+        if r2 == "ok":
+            rec("both_collected")
+            rec("both_collected_results", res2, res)
+    r3, fb_ = mz.outcome(lambda: dsb.filter_by.path_length(min_length=1))
+    if r3 == "ok":
+        rec("b_filtered", dsb, fb_)
+        r4, fa_ = mz.outcome(lambda: dsa.filter_by.path_length(min_length=1))
+        if r4 == "ok":
+            rec("both_filtered", fa_, fb_)
+            rec("originals_after_filters")
+    return out
+
+
+# ------------------------------------------------------------------ CLASS B: magnitude boundaries (127/128, 255/256)
+def _snake(R, C, n):
+    p = []
+    for i in range(R):
+        row = [[i, j] for j in range(C)]
+        p += row if i % 2 == 0 else row[::-1]
+    return p[:n]
+
+
+BIG_SHAPES = [(16, 16), (12, 12), (2, 70), (70, 2), (1, 300), (300, 1), (2, 130), (129, 2), (3, 100)]
+
+
+def big_group(args):
+    """mazes with >= 128 / >= 256 cells, solutions of 127..300 cells, coordinates 127/128/255/256: variants that
+    differ ONLY beyond an int8 / uint8 boundary (cell index, solution position, coordinate value +-128 / +-256)"""
+    R, C, L, kind = args
+    conn = np.zeros((2, R, C), dtype=bool)
+    conn[0, : R - 1, 0] = True
+    conn[1, 0, : C - 1] = True
+    sol = _snake(R, C, L)
+    L = len(sol)
+    a = dict(kind=kind, conn=mz.raw(conn), start=[], end=[], sol=[], meta=0, rep="copy")
+    if kind == "SolvedMaze":
+        a = _with_sol(a, sol)
+    elif kind == "TargetedLatticeMaze":
+        a["start"], a["end"] = sol[0], sol[-1]
+    big = max(R, C) > 127
+    vs = [dict(rel="same", m=dict(a, rep="same")), dict(rel="copy", m=dict(a)), dict(rel="meta", m=dict(a, meta=2)), dict(rel="rep", m=dict(a, rep="conn_view"))]
+    if kind == "TargetedLatticeMaze":
+        vs += [dict(rel="rep", m=dict(a, rep=r)) for r in ["ends_int16", "ends_int32", "ends_list"] + (["ends_uint8"] if max(R, C) <= 256 else []) + ([] if big else ["ends_int8"])]
+    if kind == "SolvedMaze":
+        vs += [dict(rel="rep", m=dict(a, rep=r)) for r in ["sol_int16", "sol_int32", "sol_tuples"] + (["sol_uint8"] if max(R, C) <= 256 else []) + ([] if big else ["sol_int8"])]
+        if R == C:
+            vs += [dict(rel="rep", m=dict(a, rep=r)) for r in ("rt_ds_minimal", "rt_ds_full")]
+    flat = 2 * R * C
+    for idx in sorted({0, 126, 127, 128, 129, 254, 255, 256, 257, flat // 2, flat - 1}):
+        if idx < flat:
+            c2 = conn.copy().reshape(-1)
+            c2[idx] = ~c2[idx]
+            vs.append(dict(rel="bit", m=dict(a, conn=mz.raw(c2.reshape(2, R, C)))))
+    vs.append(dict(rel="shape", m=_reflow(a, C, R) if R != C else _reflow(a, R * 2, C // 2)))
+    cells_far = lambda c: [x for x in ([c[0], c[1] + 128], [c[0], c[1] - 128], [c[0], c[1] + 256], [c[0], c[1] - 256], [c[0] + 128, c[1]], [c[0] - 128, c[1]], [c[0] + 256, c[1]], [c[0] - 256, c[1]], [c[0], c[1] ^ 1] if (c[1] ^ 1) < C else [c[0] ^ 1, c[1]]) if 0 <= x[0] < R and 0 <= x[1] < C]  # noqa: E731
+    if kind == "TargetedLatticeMaze":
+        for fld in ("start", "end"):
+            for x in cells_far(a[fld]):
+                vs.append(dict(rel=fld, m=dict(a, **{fld: x})))
+        vs.append(dict(rel="swap", m=dict(a, start=a["end"], end=a["start"])))
+    if kind == "SolvedMaze":
+        for pos in sorted({0, 1, 126, 127, 128, 129, 254, 255, 256, 257, L - 2, L - 1}):
+            if 0 <= pos < L:
+                for x in cells_far(sol[pos])[:3]:
+                    s2 = [list(c) for c in sol]
+                    s2[pos] = x
+                    vs.append(dict(rel="solcell", m=_with_sol(a, s2)))
+        vs.append(dict(rel="longer", m=_with_sol(a, sol + [sol[-1]])))
+        vs.append(dict(rel="longer", m=_with_sol(a, sol + sol[-2:-1])))
+        if L > 2:
+            vs.append(dict(rel="shorter", m=_with_sol(a, sol[:-1])))
+            vs.append(dict(rel="shorter", m=_with_sol(a, sol[:127] + sol[128:])) if L > 130 else dict(rel="shorter", m=_with_sol(a, sol[1:])))
+            vs.append(dict(rel="reversed", m=_with_sol(a, sol[::-1])))
+        vs.append(dict(rel="kind", m=dict(a, kind="TargetedLatticeMaze", sol=[])))
+    return observe_group(dict(t="pairs", a=a, vs=vs, foreign=["None"]))
+
+
+def big_ctor_cases():
+    out = []
+    for R, C in [(128, 128), (127, 129), (256, 256), (255, 257), (2, 70), (70, 2), (1, 300), (300, 1), (129, 2), (2, 256), (16, 16)]:
+        vals = lambda n: sorted({-129, -128, -1, 0, 1, 9, 10, 126, 127, 128, 129, 254, 255, 256, 257, n - 2, n - 1, n, n + 1, n + 127, n + 128, n + 255, n + 256})  # noqa: E731
+        inr, inc = min(R - 1, 1), min(C - 1, 1)
+        for kind in ("TargetedLatticeMaze", "SolvedMaze"):
+            pts = [[r, inc] for r in vals(R)] + [[inr, c] for c in vals(C)] + [[R - 1, C - 1], [R, C], [C - 1, R - 1], [C, R]]
+            for p in pts:
+                for s, e in (([inr, inc], p), (p, [inr, inc]), (p, p)):
+                    small = all(-128 <= x <= 127 for x in s + e)
+                    u8 = all(0 <= x <= 255 for x in s + e)
+                    if kind == "TargetedLatticeMaze":
+                        forms = ["array", "tuple", "int16", "from_lattice_maze"] + (["int8"] if small else []) + (["uint8"] if u8 else [])
+                    else:
+                        forms = ["walk", "pair", "walk_explicit_ends"]
+                    out.append(dict(t="ctor", kind=kind, R=R, C=C, start=s, end=e, forms=forms))
+    return out
+
+
+def big_ds(args):
+    """datasets with 127..257 mazes that differ only at / beyond index 127 or 255, or only in length"""
+    n, variant = args
+    pool = [dict(kind="SolvedMaze", conn=[[[1, 0], [0, 0]], [[0, 0], [1, 0]]], start=s, end=e, sol=walk(s, e), meta=0, rep=rep) for s, e, rep in
+            (([0, 0], [1, 1], "copy"), ([0, 0], [1, 1], "sol_int8"), ([0, 0], [1, 0], "copy"), ([1, 1], [0, 0], "copy"))]  # fmt: skip
+    la = [1 + (i % 2) * 2 for i in range(n)]  # values 1,3,1,3...
+    if variant == "equal":
+        lb = [2 if x == 1 else x for x in la]  # equal copies in another representation
+    elif variant == "last":
+        lb = la[:-1] + [4]
+    elif variant == "at127":
+        lb = list(la)
+        lb[min(127, n - 1)] = 4
+    elif variant == "at255":
+        lb = list(la)
+        lb[min(255, n - 1)] = 4
+    elif variant == "shorter":
+        lb = la[:-1]
+    elif variant == "minus128":
+        lb = la[: max(0, n - 128)]
+    elif variant == "minus256":
+        lb = la[: max(0, n - 256)]
+    else:
+        raise ValueError(variant)
+    return observe_ds(dict(t="ds", R=2, C=2, pool=pool, la=la, lb=lb, cfgs=["copy", "n_mazes"]))
+
+
+def big_dedup(args):
+    """lists of 128..300 mazes: many duplicates of few values, and > 256 distinct values"""
+    n, distinct = args
+    descs, same_as = [], []
+    R, C = 3, 100
+    conn = mz.raw(np.zeros((2, R, C), dtype=bool))
+    for i in range(n):
+        v = i % distinct
+        c = [v // C, v % C]
+        descs.append(dict(kind="TargetedLatticeMaze", conn=conn, start=c, end=[0, 0], sol=[], meta=i % 3, rep=["copy", "ends_int16", "ends_list"][i % 3]))
+        same_as.append(-1)
+    return observe_dedup(dict(t="dedup", descs=descs, same_as=same_as))
+
+
 # ------------------------------------------------------------------ canaries (synthetic, independent of the code under test)
 def _first(recs, pred):
     return next((r for r in recs if pred(r)), None)
@@ -562,8 +888,8 @@ def synthetic_canaries():
     L = dict(kind="LatticeMaze", conn=C23, start=[], end=[], sol=[])
     T = dict(kind="TargetedLatticeMaze", conn=C22, start=[0, 0], end=[1, 1], sol=[])
     S = dict(kind="SolvedMaze", conn=C22, start=[0, 0], end=[1, 1], sol=[[0, 0], [0, 1], [1, 1]])
-    eqr = dict(eq="True", ne="False", eq_r="True", ne_r="False", ha="ok", hb="ok", heq=True, set_res="ok", set_n=1, dict_res="ok", dict_n=1, exp=True, arep="copy", brep="copy", ameta=0, bmeta=0)
-    ner = dict(eq="False", ne="True", eq_r="False", ne_r="True", ha="ok", hb="ok", heq=False, set_res="ok", set_n=2, dict_res="ok", dict_n=2, exp=False, arep="copy", brep="copy", ameta=0, bmeta=0)
+    eqr = dict(eq="True", ne="False", eq_r="True", ne_r="False", eq2="True", ne2="False", eq_r2="True", ne_r2="False", hstable=True, ha="ok", hb="ok", heq=True, set_res="ok", set_n=1, dict_res="ok", dict_n=1, exp=True, arep="copy", brep="copy", ameta=0, bmeta=0)
+    ner = dict(eq="False", ne="True", eq_r="False", ne_r="True", eq2="False", ne2="True", eq_r2="False", ne_r2="True", hstable=True, ha="ok", hb="ok", heq=False, set_res="ok", set_n=2, dict_res="ok", dict_n=2, exp=False, arep="copy", brep="copy", ameta=0, bmeta=0)
     controls, can = [], []
     for a in (L, T, S):
         p = dict(t="pair", rel="copy", a=a, b=copy.deepcopy(a), **eqr)
@@ -574,6 +900,8 @@ def synthetic_canaries():
             (_mk(p, hb="raise:TypeError", heq=False), "unhashable"), (_mk(p, heq=False), "hash_inconsistent"),
             (_mk(p, set_n=2), "set_dedup"), (_mk(p, dict_n=2), "dict_dedup"), (_mk(p, set_res="raise:TypeError", set_n=-1), "set_raises"), (_mk(p, dict_res="raise:TypeError", dict_n=-1), "dict_raises"),
             (_mk(p, exp=False), "M:scope_label"),
+            (_mk(p, eq2="False"), "eq_truth_table_when_repeated"), (_mk(p, eq_r2="False"), "eq_truth_table_when_repeated"), (_mk(p, ne_r2="True"), "ne_truth_table_when_repeated"),
+            (_mk(p, eq2="raise:KeyError"), "eq_raises_when_repeated"), (_mk(p, hstable=False), "hash_changes_over_time"),
         ]  # fmt: skip
     for nm, x in (("negative", [-1, 0]), ("too_large", [0, 2])):
         bad = dict(t="pair", rel="copy", a=dict(T, start=x), b=dict(T, start=x), **eqr)
@@ -593,7 +921,8 @@ def synthetic_canaries():
         controls.append(p)
         controls.append(_mk(p, heq=True))  # a hash collision between different values is allowed
         can += [(_mk(p, eq="True"), "eq_truth_table"), (_mk(p, eq_r="True"), "eq_truth_table_reflected"), (_mk(p, ne="False"), "ne_truth_table"),
-                (_mk(p, set_n=1), "set_dedup"), (_mk(p, dict_n=1), "dict_dedup"), (_mk(p, exp=True), "M:scope_label")]  # fmt: skip
+                (_mk(p, set_n=1), "set_dedup"), (_mk(p, dict_n=1), "dict_dedup"), (_mk(p, exp=True), "M:scope_label"),
+                (_mk(p, eq2="True"), "eq_truth_table_when_repeated"), (_mk(p, ne2="False"), "ne_truth_table_when_repeated")]  # fmt: skip
     f = dict(t="foreign", a=S, other="None", eq="False", ne="True", eq_r="False", ne_r="True", arep="copy", ameta=0)
     controls.append(f)
     can += [(_mk(f, eq="True"), "eq_truth_table"), (_mk(f, eq_r="raise:AttributeError"), "eq_raises"), (_mk(f, ne="False"), "ne_truth_table")]
@@ -605,16 +934,19 @@ def synthetic_canaries():
         controls.append(out)
         can += [(_mk(out, res="ok", got_start=s0, got_end=e0), "accepts_end_outside_grid"), (_mk(out, res="ok", got_start=s0, got_end=e0), "holds_end_outside_grid"),
                 (_mk(out, res="raise:IndexError"), "wrong_exception_type")]  # fmt: skip
-    cf_ = dict(name="c09", grid_n=2, seed=7, ctor="gen_dfs")
-    d = dict(t="ds", cv="copy", ca=cf_, cb=dict(cf_), na=2, nb=2, ceq="True", ma=[S, S], mb=[S, dict(S)], eq="True", ne="False", ra=["copy"] * 2, rb=["copy"] * 2, ea=[0, 0], eb=[0, 0])
-    controls += [d, _mk(d, nb=3, ceq="False", eq="False", ne="True"), _mk(d, nb=3, ceq="True")]
+    cf_ = dict(name="c09", grid_n=2, seed=7, ctor="gen_dfs", filters=[])
+    d = dict(t="ds", cv="copy", ca=cf_, cb=dict(cf_), na=2, nb=2, ceq="True", ma=[S, S], mb=[S, dict(S)], eq="True", ne="False", eq_r="True", ne_r="False", eq2="True", eq_r2="True", ra=["copy"] * 2, rb=["copy"] * 2, ea=[0, 0], eb=[0, 0])
+    controls += [d, _mk(d, nb=3, ceq="False", eq="False", ne="True", eq_r="False", ne_r="True", eq2="False", eq_r2="False"), _mk(d, nb=3, ceq="True"),
+                 _mk(d, ca=dict(cf_, filters=["collect_generation_meta:{}"]), cb=dict(cf_, filters=["collect_generation_meta:{}"]))]
     can += [(_mk(d, eq="False"), "ds_eq_truth_table"), (_mk(d, ne="True"), "ds_ne_truth_table"), (_mk(d, eq="raise:ValueError", ne="raise:ValueError"), "ds_eq_raises"),
+            (_mk(d, eq_r="False"), "ds_eq_truth_table"), (_mk(d, ne_r="True"), "ds_ne_truth_table"), (_mk(d, eq2="False"), "ds_eq_truth_table_when_repeated"), (_mk(d, eq_r2="raise:KeyError"), "ds_eq_raises"),
+            (_mk(d, cb=dict(cf_, filters=["collect_generation_meta:{}"]), ceq="False"), "ds_eq_truth_table"),
             (_mk(d, ceq="False"), "M:cfg_eq_model"), (_mk(d, nb=3, ceq="False"), "ds_eq_truth_table")]  # fmt: skip
     for nm, mb, cb in (("cell", [S, dict(S, sol=[[0, 0], [1, 0], [1, 1]])], cf_), ("shorter", [S], cf_), ("longer", [S, S, S], cf_), ("order", [dict(S, conn=C22), T], cf_), ("cfg", [S, S], dict(cf_, name="c09x"))):
         ma = [T, dict(S, conn=C22)] if nm == "order" else [S, S]
-        u = _mk(d, ma=ma, mb=mb, cb=cb, eq="False", ne="True", ceq="False" if nm == "cfg" else "True", rb=["copy"] * len(mb), eb=[0] * len(mb))
+        u = _mk(d, ma=ma, mb=mb, cb=cb, eq="False", ne="True", eq_r="False", ne_r="True", eq2="False", eq_r2="False", ceq="False" if nm == "cfg" else "True", rb=["copy"] * len(mb), eb=[0] * len(mb))
         controls.append(u)
-        can += [(_mk(u, eq="True"), "ds_eq_truth_table"), (_mk(u, ne="False"), "ds_ne_truth_table")]
+        can += [(_mk(u, eq="True"), "ds_eq_truth_table"), (_mk(u, ne="False"), "ds_ne_truth_table"), (_mk(u, eq_r2="True"), "ds_eq_truth_table_when_repeated")]
     dd = dict(t="dedup", ms=[S, T, dict(S), dict(S, sol=[[0, 0], [1, 0], [1, 1]]), T], hs_ok=True, set_res="ok", set_n=3, dict_res="ok", dict_first=[0, 1, 3], reps=["copy"] * 5, metas=[0] * 5, same_as=[-1] * 5)
     controls.append(dd)
     can += [(_mk(dd, set_n=4), "set_dedup"), (_mk(dd, set_n=2), "set_dedup"), (_mk(dd, dict_first=[0, 1, 2, 3]), "dict_dedup"), (_mk(dd, dict_first=[0, 1]), "dict_dedup"), (_mk(dd, dict_first=[0, 2, 3]), "dict_dedup"),
@@ -639,13 +971,13 @@ def _nontrivial(r):
 def _case_key(r):
     t = r["t"]
     if t == "pair":
-        return [t, r["a"], r["b"], r["arep"], r["brep"], r["ameta"], r["bmeta"]]
+        return [t, r["a"], r["b"], r["arep"], r["brep"], r["ameta"], r["bmeta"], r["rel"] if "hist" in r else 0, r.get("hist")]
     if t == "foreign":
         return [t, r["a"], r["other"]]
     if t == "ctor":
         return [t, r["kind"], r["R"], r["C"], r["start"], r["end"], r["form"]]
     if t == "ds":
-        return [t, r["ca"], r["cb"], r["na"], r["nb"], r["ma"], r["mb"], r["rb"]]
+        return [t, r["cv"], r["ca"], r["cb"], r["na"], r["nb"], r["ma"], r["mb"], r.get("rb"), r.get("hist")]
     if t == "build":
         return [t, r["kind"], r["conn"], r["start"], r["end"], r["sol"], r["rep"]]
     return [t, r["ms"], r["reps"], r["same_as"]]
@@ -722,7 +1054,9 @@ def main(chk: lib.Check) -> int:
         "(boundary bits included), every other start / end cell, swap, every one-cell change of the solution, longer / shorter / re-routed / reversed solutions, "
         "other kinds, 12 other shapes (same bytes re-poured), plus 5 non-maze right operands; (ctor) both kinds x every (start,end) in (-2..R+1 x -2..C+1)^2 x 4 call forms "
         "on the 8 shapes; (ds) MazeDataset pairs over lists of length <= 3 from a pool of 4 mazes x 7 configuration variants; then seeded random cases of the same forms "
-        "on grids up to 12x12 / 15x15 incl. library round trips and duplicate lists. non-trivial = pair of distinct objects / endpoint on or beyond the boundary / non-empty dataset"
+        "on grids up to 12x12 / 15x15 incl. library round trips and duplicate lists; then histories (every use of an object / edit or filter of a dataset followed by a "
+        "re-observation against fresh, reloaded and different objects) and magnitude cases (16x16, 2x70, 1x300, 129x2 ..., solutions of 128..300 cells, constructor "
+        "coordinates around 127/128/255/256 on grids 128 and 256, datasets / duplicate lists of 127..300 mazes). non-trivial = pair of distinct objects / endpoint on or beyond the boundary / non-empty dataset"
     )
     import maze_dataset
 
@@ -800,6 +1134,30 @@ def main(chk: lib.Check) -> int:
         recs += _flat(lib.pmap(rand_ds, [(chk.seed, k, 6) for k in range(n // 3)], chunksize=8))
         judge(chk, recs, "random", "random pairs up to 12x12 (random walks, library round trips giving int8 arrays, multi-digit coordinates), duplicate lists of 2..10 mazes through "
               "set()/dict.fromkeys(), constructor calls up to 15x15 with coordinates far outside, random datasets")
+        # ---- (C) audit classes: histories (A) and magnitude boundaries (B)
+        nh = 1500 if thorough else 200
+        recs = _flat(lib.pmap(rand_history, [(chk.seed, k, 6) for k in range(nh)], chunksize=4))
+        x = _first(recs, lambda r: r["t"] == "pair" and r["rel"].startswith("used:as_pixels"))
+        if x:
+            chk.sample({k: x[k] for k in ("t", "rel", "eq", "eq2", "heq", "hstable", "set_n", "hist")})
+        recs += _flat(lib.pmap(rand_ds_history, [(chk.seed, k, 5) for k in range(nh // 2)], chunksize=4))
+        chk.notes["history_records"] = len(recs)
+        jobs_b = []
+        for R, C in BIG_SHAPES:
+            for L in (128, 257, 300):
+                if L == 128 or R * C > 128:
+                    jobs_b.append((R, C, L, "SolvedMaze"))
+            jobs_b += [(R, C, R * C, "TargetedLatticeMaze"), (R, C, 1, "LatticeMaze")]
+        big = _flat(lib.pmap(big_group, jobs_b, chunksize=1))
+        big += _flat(lib.pmap(observe_case, big_ctor_cases(), chunksize=64))
+        big += _flat(lib.pmap(big_ds, [(n, v) for n in (127, 128, 129, 255, 256, 257) for v in ("equal", "last", "at127", "at255", "shorter", "minus128", "minus256")], chunksize=1))
+        big += _flat(lib.pmap(big_dedup, [(128, 5), (129, 128), (256, 7), (257, 257), (300, 290)], chunksize=1))
+        chk.notes["magnitude_records"] = len(big)
+        x = _first(big, lambda r: r["t"] == "ctor" and r["R"] == 256 and r["start"][0] == 128 and r["res"] == "ok")
+        if x:
+            chk.sample({k: x[k] for k in ("t", "kind", "R", "C", "start", "end", "form", "res")})
+        judge(chk, recs + big, "hist_big", "class A: used / edited / filtered objects compared with fresh, reloaded and different ones after every step (A-B-A over two grids); "
+              "class B: >=128 / >=256 cells, solution cells and coordinates differing only beyond int8 / uint8 boundaries, grids 128 and 256 in the bounds check, datasets and duplicate lists of 127..300 mazes")
     finally:
         shutil.rmtree(tmp, ignore_errors=True)
     chk.notes["violations_listed_by_kind_and_clause"] = chk.notes.pop("_listed", {})
@@ -825,6 +1183,8 @@ def reobserve(case):
     """re-run the stored case against the real code (every build goes through safe_build: a raising library
     is an observation here as well)"""
     t = case["t"]
+    if case.get("hist"):  # a record of a history: the whole history is re-run (the step alone means nothing)
+        return (rand_history if t == "pair" else rand_ds_history)(tuple(case["hist"]))
     if t == "pair":
         g = dict(a=_desc(case["a"], case["arep"], case["ameta"]), vs=[dict(rel=case["rel"], m=_desc(case["b"], case["brep"], case["bmeta"]))], foreign=[])
         return observe_group(g)
